@@ -11,7 +11,7 @@ func init() {
 	register(&Prop{
 		ID:         "C04",
 		Title:      "Paginating with any Limit yields the same result as one unpaginated read",
-		Decided:    "page accounting (count, scanned, limit) is arithmetic over run-time values and is NOT decided. Decided are four necessary conditions visible in the code: (R1) ExclusiveStartKey and Limit of the request reach the search and the LastEvaluatedKey of the response is the second result of the search, through conversion only, in all four client sites; (R2) the key handed out as LastEvaluatedKey is built from the last *evaluated* item (the variable assigned on every non-skipped iteration, not only on matches), contains the table's key attributes and, when reading through an index, that index's key attributes, and the incoming start key is rendered with the table's key schema; (R3) resuming must be positional (ordered comparison with the start key, or a search for its position): resuming at the first key *equal* to the start key never resumes once that item has been deleted; (R4) the error of rendering a malformed start key is not discarded (= C13.R2 at that site).",
+		Decided:    "page accounting (count, scanned, limit) is arithmetic over run-time values and is NOT decided. Decided are four necessary conditions visible in the code: (R1) ExclusiveStartKey and Limit of the request reach the search and the LastEvaluatedKey of the response is the second result of the search, through conversion only, in all four client sites; (R2) the key handed out as LastEvaluatedKey is built from the last *evaluated* item (the variable assigned on every non-skipped iteration, not only on matches), contains the table's key attributes and, when reading through an index, that index's key attributes, and the incoming start key is rendered with the table's key schema; (R3) resuming must be positional (ordered comparison with the start key, or a search for its position): resuming at the first key *equal* to the start key never resumes once that item has been deleted; (R4) the error of rendering a malformed start key is not discarded (= C13.R2 at that site); (R5) the LastEvaluatedKey a client hands out and the ExclusiveStartKey it takes back pass through the adapters' attribute mappers, and resuming compares key TEXT: every S and N text is carried verbatim in both directions (= C10.R6) – an adapter that normalises a number on the way out hands out a key that matches no stored key, and the next page is empty.",
 		NotDecided: "'at most Limit items per page', 'finitely many pages', absence of duplicates and of losses at page boundaries, boundaries inside runs of equal index keys – all consequences of the counting arithmetic (shouldCountItem / shouldBreakPage / shouldReturnNextKey / GetKeyAt), which no sound static argument in reach bounds. An off-by-one that keeps the code shape is invisible to this check.",
 		Rules: []RuleDef{
 			{ID: "R1", Desc: "start key, limit and last key are plumbed through (T-FLOW)", Run: c04R1},
@@ -30,6 +30,13 @@ func init() {
 				e.obs = kept
 				if len(e.obs) == before {
 					e.undecided("R4", "core:start-key-rendering", "-", "the GetKey call that renders the start key was not found")
+				}
+			}},
+			{ID: "R5", Desc: "the key handed out comes back as the same text: S and N pass both adapters verbatim (= C10.R6)", Run: func(e *Engine) {
+				before := len(e.obs)
+				c10R6(e)
+				for i := before; i < len(e.obs); i++ {
+					e.obs[i].Rule = "R5"
 				}
 			}},
 		},
@@ -221,8 +228,14 @@ func c04R3(e *Engine) {
 			n++
 			construct := e.fname(fn) + ":resume-test"
 			kind := ""
+			directed := false
 			for _, cd := range condsAt(in.Block()) {
 				cd = normCond(cd)
+				for _, o := range e.origins(cd.V) {
+					if strings.Contains(o, "ScanIndexForward") {
+						directed = true
+					}
+				}
 				b, isB := cd.V.(*ssa.BinOp)
 				if !isB {
 					continue
@@ -233,14 +246,23 @@ func c04R3(e *Engine) {
 				}
 				switch b.Op {
 				case token.EQL, token.NEQ:
-					kind = "equality"
+					// governs as an equality only on its "equal" side
+					if (b.Op == token.EQL) == cd.Val && kind == "" {
+						kind = "equality"
+					}
 				case token.LSS, token.LEQ, token.GTR, token.GEQ:
 					kind = "ordered"
 				}
 			}
 			switch kind {
 			case "ordered":
-				e.pass("R3", construct, e.ipos(in), "iteration resumes at the first position ordered after the start key")
+				// keys are visited in ascending or descending order depending on ScanIndexForward: "after the start key"
+				// means greater in one direction and smaller in the other
+				if directed {
+					e.pass("R3", construct+":ordered", e.ipos(in), "iteration resumes at the first position ordered after the start key, in the direction of the scan")
+				} else {
+					e.fail("R3", construct+":ordered", e.ipos(in), "iteration resumes at the first key ordered after the start key without regard to the scan direction: in a backward scan the first key visited is the largest one, so every page restarts at the top (page 2 repeats page 1 and pagination never ends)")
+				}
 			case "equality":
 				e.fail("R3", construct, e.ipos(in), "iteration resumes only after a key *equal* to the exclusive start key has been seen: if the item named by LastEvaluatedKey was deleted between two pages the flag never flips and the rest of the result is silently lost (the next page is empty and final)")
 			default:
